@@ -70,7 +70,7 @@ func backend2Scen(c *Ctx) {
 	var keys []*k2
 	for i := 0; i < 3+r.Intn(3); i++ {
 		sz := []int64{3000, 100, 4097, 70000, 1<<20 + 1, 2<<20 + 17}[r.Weighted(4, 3, 2, 2, 1, 1)]
-		b := world.Make(world.BlobID{Kind: r.Intn(3), Seed: 16000 + i, Size: sz})
+		b := world.Make(world.BlobID{Kind: r.Intn(4), Seed: 16000 + i, Size: sz})
 		keys = append(keys, &k2{kind: cache.CAS, hash: b.Hash, data: b.Data, inBack: r.Chance(1, 2)})
 	}
 	acKind := cache.RAW
